@@ -517,7 +517,7 @@ def generate_programs(T):
         except Untranslatable as e:
             failed.setdefault(name, str(e))
             continue
-        except (KeyError, IndexError, TypeError, AttributeError) as e:
+        except (KeyError, IndexError, TypeError, AttributeError, ValueError, AssertionError) as e:
             failed.setdefault(name, "unexpected AST shape %r" % (e,))
             continue
         if name in used:
